@@ -105,7 +105,9 @@ McChoices(mode, a, A, r) ==
 KeepChoices(mode, a, p, cur, mu, n, var) ==
     LET sure == { w \in cur : p[a][w] # 0 /\ InsideLt(p[a][w], mu, n, var) }
         edge == { w \in cur : p[a][w] # 0 /\ InsideEq(p[a][w], mu, n, var) }
-    IN  IF mode = "P" THEN { sure \cup e : e \in SUBSET edge } ELSE {sure \cup edge}
+        \* windows with the SAME peak get the same floating-point verdict at a bound: the open choice is per peak value, not per window
+        groups == { { w \in edge : p[a][w] = v } : v \in { p[a][w] : w \in edge } }
+    IN  IF mode = "P" THEN { sure \cup UNION G : G \in SUBSET groups } ELSE {sure \cup edge}
 
 \* decision of one iteration for a given pair of mean-curve peaks: the set of possible verdicts
 \* ("stop" = return now, "cont" = iterate again)
@@ -114,10 +116,9 @@ Verdicts(mode, mub, varb, mua, vara, mcb, mca) ==
     IN  \* the guards against 0/0: the relative change is undefined in the published algorithm; the code
         \* returns.  Whether |mean fn - mean-curve peak| of two exactly equal quantities is *computed* as zero
         \* is a rounding matter (mean(0.08, 0.06, 0.04) # 0.06 in binary), so the P tier leaves the verdict open
-        \* there, like every other exact tie.  A zero variance (all peaks equal) stays "stop": leaving it open
-        \* would make every window an edge case on every further pass (2^NW choices per pass) for no observed need.
-        IF RIsZero(varb) \/ RIsZero(vara) THEN {"stop"}
-        ELSE IF RIsZero(db) THEN (IF mode = "P" THEN {"stop", "cont"} ELSE {"stop"})
+        \* there, like every other exact tie.  The same holds for a zero variance (all peaks equal: the mean of three times
+        \* 0.006 is not 0.006 in binary, the standard deviation comes out as 1e-19): the code's "== 0" guards may or may not fire.
+        IF RIsZero(varb) \/ RIsZero(vara) \/ RIsZero(db) THEN (IF mode = "P" THEN {"stop", "cont"} ELSE {"stop"})
         ELSE
         LET da   == RAbs(RSub(mua, R(mca)))
             dd   == RDiv(RAbs(RSub(da, db)), db)
